@@ -25,7 +25,7 @@ def saidOfO (ws : List WCont) (objs : List (Piece × Nat)) (E : List Xref.Ent) (
   freed := (E.filter isFreeEnt).map (·.obj)
   root := root
 
-theorem find_num (ws : List WCont) (hnd : (ws.map WCont.num).Nodup) (w : WCont) (hw : w ∈ ws) :
+theorem find_wcont_num (ws : List WCont) (hnd : (ws.map WCont.num).Nodup) (w : WCont) (hw : w ∈ ws) :
     ws.find? (·.num == w.num) = some w := by
   induction ws with
   | nil => cases hw
@@ -58,7 +58,7 @@ theorem memberOf_of (ws : List WCont) (hnd : (ws.map WCont.num).Nodup) (e : Xref
   unfold memberOf
   rw [hst]
   simp only
-  rw [← hwc, find_num ws hnd w hw]
+  rw [← hwc, find_wcont_num ws hnd w hw]
   simp [hm]
 
 theorem mem_writtenO (ws : List WCont) (objs : List (Piece × Nat)) (E : List Xref.Ent) (root : DocSpec.ObjId)
